@@ -50,3 +50,7 @@ check("C16", "Hypothesis grammar of pipeline documents with injected opt-in keys
       "Every gated item type at nesting depth 0-3 with truthy opt-in keys injected at every level, loaded through from_yaml, from_dict and the resolver and used for a conversion, is observed through CPython audit events: without caller opt-in or environment variable no process, socket, source-file or vars-file event may occur and use must end in a Sigma(Security)Error; with allowed directories no vars file outside them (direct, symlinked, prefix-sharing) may be opened or executed. The same documents with opt-in must produce the events (monitor not blind).",
       "Observation limited to audit events; loopback closed port for HTTP.",
       "DESIGN.md section 3, C16")
+check("C13", "Hypothesis (rule, preceding items, item under test with three condition groups from every built-in condition type); independent condition evaluator + marker-transformation oracle at three target granularities",
+      "The item under test carries a field-suffix marker; its rule / detection-item / field-name groups are drawn from all built-in condition types in list form (and/or, negation), map form and expression form, including empty groups with non-default flags, after 0-2 preceding items that set state and rename fields. Expected targets (item fields, field-reference values, fields-list entries) come from an evaluator of the documented meaning on the source document and on a model of the preceding items.",
+      "Trusted: the evaluator in vf/props/c13.py; values without modifiers except fieldref; behaviour for unset built-in attributes not asserted.",
+      "DESIGN.md section 3, C13")
